@@ -466,4 +466,88 @@ theorem scanNd_shape {α β γ : Type} (body : γ → Arr α → γ × Arr β) :
     rw [this, hsl, sliceAt_slice0]
     simp [List.replicate_succ]
 
+/-! ## negative axis entries: the `Int` definitions coincide with the `Nat` ones on normalised axes -/
+
+theorem normAxis_ofNat (n a : Nat) : normAxis n (Int.ofNat a) = a := by
+  have h : ¬ (Int.ofNat a < 0) := by simp
+  simp only [normAxis, h, if_false]
+  rfl
+
+theorem invertLoopI_eq : ∀ (perm : List Int) (i : Nat) (inv : List Nat),
+    invertLoopI perm i inv = invertLoop (perm.map (normAxis inv.length)) i inv := by
+  intro perm
+  induction perm with
+  | nil => intro i inv; rfl
+  | cons j rest ih =>
+    intro i inv
+    simp only [invertLoopI, List.map_cons, invertLoop]
+    rw [ih]; simp
+
+theorem invertPermI_eq (perm : List Int) :
+    invertPermI perm = invertPerm (perm.map (normAxis perm.length)) := by
+  simp [invertPermI, invertPerm, invertLoopI_eq]
+
+theorem scanPermI_norm (axis : List Int) (n : Nat) :
+    (scanPermI axis n).map (normAxis n) = scanPerm (axis.map (normAxis n)) n := by
+  simp only [scanPermI, scanPerm, List.map_append, List.map_map]
+  congr 1
+  have : (normAxis n ∘ Int.ofNat) = id := by funext a; exact normAxis_ofNat n a
+  rw [this]; simp
+
+theorem scanPermI_length (axis : List Int) (n : Nat) :
+    (scanPermI axis n).length = (scanPerm (axis.map (normAxis n)) n).length := by
+  rw [← scanPermI_norm, List.length_map]
+
+theorem transposeInI_eq {α : Type} (axis : List Int) (x : Arr α) :
+    transposeInI axis x = transposeIn (axis.map (normAxis x.shape.length)) x := by
+  simp only [transposeInI, Arr.transposeI, transposeIn, scanPermI_norm]
+
+theorem transposeOutI_eq {α : Type} (axis : List Int) (x : Arr α)
+    (h : ValidAxes (axis.map (normAxis x.shape.length)) x.shape.length) :
+    transposeOutI axis x = transposeOut (axis.map (normAxis x.shape.length)) x := by
+  simp only [transposeOutI, transposeOut, invertPermI_eq]
+  rw [scanPermI_length, scanPerm_length _ _ h, scanPermI_norm]
+
+/-! congruence of scans in the body (only the slices actually visited matter) -/
+
+theorem scan1_congr {α β γ : Type} (B1 B2 : γ → Arr α → γ × Arr β) (init : γ) (x : Arr α)
+    (h : ∀ c i, B1 c (x.slice0 i) = B2 c (x.slice0 i)) : scan1 B1 init x = scan1 B2 init x := by
+  have hc : ∀ i, carryAt B1 init (fun i => x.slice0 i) i = carryAt B2 init (fun i => x.slice0 i) i := by
+    intro i
+    induction i with
+    | zero => rfl
+    | succ i ih => simp only [carryAt, ih, h]
+  simp only [scan1, hc, h]
+
+theorem scanNd_congr {α β γ : Type} (B1 B2 : γ → Arr α → γ × Arr β) :
+    ∀ (k : Nat) (init : γ) (x : Arr α), k + 1 ≤ x.shape.length →
+      (∀ c s, s.shape.length + (k + 1) = x.shape.length → B1 c s = B2 c s) →
+      scanNd B1 k init x = scanNd B2 k init x := by
+  intro k
+  induction k with
+  | zero =>
+    intro init x hr h
+    simp only [scanNd]
+    apply scan1_congr
+    intro c i
+    apply h
+    simp only [Arr.slice0, List.length_tail]; omega
+  | succ k ih =>
+    intro init x hr h
+    simp only [scanNd]
+    apply scan1_congr
+    intro c i
+    have hl : (x.slice0 i).shape.length + 1 = x.shape.length := by
+      simp only [Arr.slice0, List.length_tail]; omega
+    apply ih c (x.slice0 i) (by omega)
+    intro c' s hs
+    apply h
+    omega
+
+theorem scanNd_result_rank {α β γ : Type} (body : γ → Arr α → γ × Arr β) (k : Nat) (init : γ) (x : Arr α)
+    (hr : k + 1 ≤ x.shape.length) :
+    (scanNd body k init x).2.shape.length
+      = (k + 1) + (body init (x.sliceAt (List.replicate (k + 1) 0))).2.shape.length := by
+  rw [scanNd_shape body k init x hr, List.length_append, List.length_take, Nat.min_eq_left hr]
+
 end Flax.HostData
